@@ -20,17 +20,29 @@ ASSUMPTIONS = ["latest admissible rejection stage per fault: parse for literal f
                "expand_macros for faults arising by macro substitution, run otherwise",
                "zero/negative strides and negative loop counts are not in the statement and not generated"]
 TIERS = {"quick": {"shards": 8, "budget_s": 110}, "thorough": {"shards": 16, "budget_s": 360}}
-REQUIRE = {"route:parser-let-map": 500, "route:parser-let": 500, "internal-context-names-observed": 1, "faulty-cases": 2000, "twin-cases": 2000, "twin-accepted": 2000, "precedence-probes": 1}
+REQUIRE = {"route:builder": 500, "route:parser-let-map": 500, "route:parser-let": 500, "internal-context-names-observed": 1, "faulty-cases": 2000, "twin-cases": 2000, "twin-accepted": 2000, "precedence-probes": 1}
 
 STAGES = ["parse", "fill_in_let", "expand_macros", "run"]
 
 
-def pipeline(prog, ov, native=True, route="passes"):
+def pipeline(prog, ov, native=True, route="passes", bseed=0):
     """Run the stages separately; returns (stage reached or rejecting stage, outcome tuple, result).
     route: 'passes' = parse, fill_in_let(ov), expand_macros, run;  'parser-let' / 'parser-let-map' = the parser is asked
     to substitute lets (and aliases) itself: parse_jaqal_string(expand_let=True | expand_let_map=True, override_dict=ov)."""
     text = sx.to_text(prog)
-    if route == "passes":
+    if route == "builder":
+        # assembled through the object-oriented CircuitBuilder with the gate set in force, objects built at once or
+        # unevaluated at random: a fault must be refused when the circuit is built, at the latest
+        from . import builder_route
+
+        o = lib.outcome(lambda: builder_route.via_builder(prog, bseed, native=X.native() if native else None)[0])
+        if o[0] != "ok":
+            return "parse", o, None
+        c = o[1]
+        o = lib.outcome(lib.fill_in_let, c, ov or None)
+        if o[0] != "ok":
+            return "fill_in_let", o, None
+    elif route == "passes":
         o = lib.outcome(lib.parse, text, X.native() if native else None)
         if o[0] != "ok":
             return "parse", o, None
@@ -59,7 +71,7 @@ def judge(case):
     prog = case_prog(case)
     ov = dict(case.get("ov") or {})
     faulty = case["fault"] is not None
-    stage, o, res = pipeline(prog, ov, route=case.get("route", "passes"))
+    stage, o, res = pipeline(prog, ov, route=case.get("route", "passes"), bseed=case.get("bseed", 0))
     fails = []
     info = {"stage": stage, "outcome": o[0]}
     if o[0] == "budget":
@@ -480,6 +492,16 @@ def precedence_probe(ctx):
         shutil.rmtree(d, ignore_errors=True)
 
 
+def in_loops(prog):
+    out = []
+    for s in prog[1:]:
+        if s[0] == "gate" and s[1] not in ("prepare_all", "measure_all"):
+            out.append(("loop", 1, ("sequential_block", s)))
+        else:
+            out.append(s)
+    return ("circuit",) + tuple(out)
+
+
 def process(ctx, case):
     rec = ctx.rec
     st, fails, info = judge(case)
@@ -516,10 +538,15 @@ def shard(ctx):
         i += 1
         cases = gen_cases(ctx.rng)
         for c in cases:
-            route = ctx.rng.choice(["passes", "passes", "parser-let", "parser-let-map"])
-            process(ctx, {"fault": c["fault"], "latest": c["latest"], "prog": c["prog"], "ov": c["ov"], "route": route})
+            route = ctx.rng.choice(["passes", "passes", "parser-let", "parser-let-map", "builder"])
+            bs = ctx.rng.randrange(1 << 30)
+            fp = c["prog"]
             tp, tov = c["twin"]
-            process(ctx, {"fault": None, "twin_of": c["fault"].split(":")[0], "prog": tp, "ov": tov, "route": route})
+            if route == "builder" and ctx.rng.random() < 0.7:
+                # the statements sit in `loop 1 { ... }`: the builder may then build them before the circuit exists
+                fp, tp = in_loops(fp), in_loops(tp)
+            process(ctx, {"fault": c["fault"], "latest": c["latest"], "prog": fp, "ov": c["ov"], "route": route, "bseed": bs})
+            process(ctx, {"fault": None, "twin_of": c["fault"].split(":")[0], "prog": tp, "ov": tov, "route": route, "bseed": bs})
         if i == 1:
             for c in cases[:3]:
                 rec.sample({"fault": c["fault"], "ov": c["ov"], "text": sx.to_text(c["prog"])})
